@@ -53,13 +53,20 @@ CONFIG = [
      "param_types": {"start": "valueobj"}},
     {"tag": "Str", "file": "src/eolib/data/string_encoding_utils.py",
      "functions": ["_invert_characters", "encode_string", "decode_string"], "classes": {}},
+    {"tag": "Writer", "file": "src/eolib/data/eo_writer.py", "functions": [],
+     "classes": {"EoWriter": ["__init__", "add_byte", "add_bytes", "add_char", "add_short", "add_three", "add_int", "add_string",
+                              "add_fixed_string", "add_encoded_string", "add_fixed_encoded_string", "string_sanitization_mode",
+                              "string_sanitization_mode_setter", "to_bytearray", "__len__", "_add_bytes_with_length",
+                              "_sanitize_string", "_check_number_size", "_add_padding", "_check_string_length", "_encode_ansi"]},
+     # `self.string_sanitization_mode` is a property whose getter returns this field (the getter is translated as well)
+     "properties": {"string_sanitization_mode": "_string_sanitization_mode"}},
     {"tag": "Enc", "file": "src/eolib/encrypt/encryption_utils.py",
      "functions": ["interleave", "deinterleave", "flip_msb", "swap_multiples"], "classes": {},
      # fuel handed to `while` loops (a Lean term over the parameters); running out is reported as Diverges
      "fuel": "(data.length + 2)"},
 ]
 
-LEAN_TY = {"int": "Int", "bool": "Bool", "bytes": "(List Int)", "valueobj": "Int", "unit": "Unit"}
+LEAN_TY = {"int": "Int", "bool": "Bool", "bytes": "(List Int)", "str": "(List Nat)", "none": "Unit", "valueobj": "Int", "unit": "Unit"}
 EXC = {"ValueError": ".ValueError", "RuntimeError": ".RuntimeError", "TypeError": ".TypeError",
        "ZeroDivisionError": ".ZeroDivisionError"}
 
@@ -92,7 +99,7 @@ def ann_type(a):
     if a is None:
         return None
     if isinstance(a, ast.Name):
-        return {"int": "int", "bool": "bool", "bytes": "bytes", "bytearray": "bytes"}.get(a.id)
+        return {"int": "int", "bool": "bool", "bytes": "bytes", "bytearray": "bytes", "str": "str"}.get(a.id)
     if isinstance(a, ast.Constant) and isinstance(a.value, str):
         return None
     return None
@@ -109,6 +116,7 @@ class Module:
         self.consts: dict[str, int] = {}
         self.const_defs: list[str] = []
         self.imported: dict[str, tuple[str, str]] = {}     # local name -> (tag, name)
+        self.imported_funcs: dict[str, tuple[str, str]] = {}   # local name -> (tag, function) of another translated module
         self.funcs: dict[str, dict] = {}                      # lean name -> signature info
         self.out: list[str] = []
         self.report: dict[str, str] = {}
@@ -124,6 +132,8 @@ class Module:
                         for al in st.names:
                             if al.name in m.consts:
                                 self.imported[al.asname or al.name] = (m.tag, al.name)
+                            if al.name in m.cfg["functions"]:
+                                self.imported_funcs[al.asname or al.name] = (m.tag, al.name)
             elif isinstance(st, ast.Assign) and len(st.targets) == 1 and isinstance(st.targets[0], ast.Name):
                 name = st.targets[0].id
                 try:
@@ -187,8 +197,8 @@ class Module:
                 items.append((st.name, None, st))
             if isinstance(st, ast.ClassDef) and st.name in self.cfg["classes"]:
                 for x in st.body:
-                    if isinstance(x, ast.FunctionDef) and x.name in self.cfg["classes"][st.name]:
-                        items.append((f"{st.name}.{x.name}", st.name, x))
+                    if isinstance(x, ast.FunctionDef) and method_name(x) in self.cfg["classes"][st.name]:
+                        items.append((f"{st.name}.{method_name(x)}", st.name, x))
         wanted = set(self.cfg["functions"]) | {f"{c}.{m}" for c, ms in self.cfg["classes"].items() for m in ms}
         for w in wanted - {n for n, _, _ in items}:
             self.report[w] = "missing: no such function in the source"
@@ -214,7 +224,7 @@ class Module:
             self.out.append(f"-- {name}: not translated (depends on an untranslated function)")
 
     def function(self, name, cls, node):
-        if node.args.vararg or node.args.kwarg or node.args.kwonlyargs or node.args.defaults:
+        if node.args.vararg or node.args.kwarg or node.args.kwonlyargs:
             raise Unsupported("parameter kinds")
         deco = [d.id for d in node.decorator_list if isinstance(d, ast.Name)]
         is_method = cls is not None and "staticmethod" not in deco
@@ -223,6 +233,7 @@ class Module:
         lean_params = []
         fields = self.classes[cls]["fields"] if cls else []
         is_init = is_method and node.name == "__init__"
+        pnames = [a.arg for a in (params[1:] if is_method else params)]
         if is_method:
             if not params or params[0].arg != "self":
                 raise Unsupported("method without self")
@@ -242,11 +253,12 @@ class Module:
             lean_params.append((a.arg, t))
         tr = FnTr(self, cls, env, {"is_method": is_method, "is_init": is_init, "fields": fields, "name": name})
         # variables whose final value is part of the result
-        assigned = assigned_vars(node.body)
+        assigned = mutated_vars(node.body, self, cls)
         if is_init:
             outs = ["self_" + f for f in fields]
         elif is_method:
-            outs = ["self_" + f for f in fields if "self_" + f in assigned]
+            outs = ["self_" + f for f in fields if "self_" + f in assigned] + \
+                   [a.arg for a in params if env[a.arg] == "bytes" and a.arg in assigned]
         else:
             outs = [a.arg for a in params if env[a.arg] == "bytes" and a.arg in assigned]
         tr.outs = outs
@@ -268,7 +280,8 @@ class Module:
         rparams = [(r, "int") for r in tr.rparams]
         sig = " ".join(f"({n} : {lean_ty(t)})" for n, t in lean_params + rparams)
         self.funcs[name] = {"params": [t for _, t in lean_params], "ret": rty, "nrandom": len(rparams), "outs": outs,
-                            "is_method": is_method, "is_init": is_init}
+                            "is_method": is_method, "is_init": is_init, "pnames": pnames, "ret_type": tr.ret_type,
+                            "nfields": len(fields) if (is_method and not is_init) else 0, "cls": cls}
         lname = name
         return "\n\n".join(tr.aux + [f"def {lname} {sig} : Py.M {lean_ty(rty)} :=\n{ind(body)}"])
 
@@ -296,6 +309,77 @@ def assigned_vars(stmts):
                 elif isinstance(t, ast.Attribute) and isinstance(t.value, ast.Name) and t.value.id == "self":
                     out.add("self_" + t.attr)
     return out
+
+
+def method_name(x: ast.FunctionDef) -> str:
+    """`name` for ordinary methods and property getters, `name_setter` for `@name.setter`"""
+    for d in x.decorator_list:
+        if isinstance(d, ast.Attribute) and d.attr == "setter":
+            return x.name + "_setter"
+    return x.name
+
+
+def _var_of(e):
+    if isinstance(e, ast.Name):
+        return e.id
+    if isinstance(e, ast.Attribute) and isinstance(e.value, ast.Name) and e.value.id == "self":
+        return "self_" + e.attr
+    return None
+
+
+def mutated_vars(stmts, mod, cls):
+    """variables assigned or mutated in place (directly, through bytearray methods, or through a translated callee)"""
+    out = assigned_vars(stmts)
+    for st in stmts:
+        for n in ast.walk(st):
+            if not isinstance(n, ast.Call):
+                continue
+            f = n.func
+            if isinstance(f, ast.Attribute) and f.attr in ("append", "extend", "reverse") and _var_of(f.value):
+                out.add(_var_of(f.value))
+                continue
+            r = resolve_callee(mod, cls, n)
+            if r is None:
+                continue
+            lname, sig = r
+            if sig is None:
+                raise NeedsLater()
+            for o in sig["outs"]:
+                if o.startswith("self_") and o not in sig["pnames"]:
+                    out.add(o)
+                elif o in sig["pnames"]:
+                    i = sig["pnames"].index(o)
+                    if i < len(n.args) and _var_of(n.args[i]):
+                        out.add(_var_of(n.args[i]))
+    return out
+
+
+def resolve_callee(mod, cls, call: ast.Call):
+    """-> (lean name, signature or None when not translated yet) for calls of translated functions/methods, else None"""
+    f = call.func
+    wanted = set(mod.cfg["functions"]) | {f"{c}.{x}" for c, ms in mod.cfg["classes"].items() for x in ms}
+    name = None
+    if isinstance(f, ast.Name):
+        if f.id in mod.cfg["functions"]:
+            name = f.id
+        elif f.id in mod.classes:
+            name = f"{f.id}.__init__"
+        elif f.id in mod.imported_funcs:
+            tag, fn = mod.imported_funcs[f.id]
+            other = mod.world[tag]
+            return f"Src.{tag}.{fn}", other.funcs.get(fn)
+    elif isinstance(f, ast.Attribute) and isinstance(f.value, ast.Name):
+        if f.value.id == "self" and cls is not None and f"{cls}.{f.attr}" in wanted:
+            name = f"{cls}.{f.attr}"
+        elif f.value.id in mod.classes and f"{f.value.id}.{f.attr}" in wanted:
+            name = f"{f.value.id}.{f.attr}"
+    if name is None:
+        return None
+    if name in mod.funcs:
+        return name, mod.funcs[name]
+    if mod.report.get(name) is None:
+        return name, None
+    raise Unsupported(f"call of {name}, which could not be translated")
 
 
 def has_ctrl(stmts, in_loop_only_break=True):
@@ -364,7 +448,10 @@ class FnTr:
                 n = "self_" + e.attr
                 if n in env:
                     return n, env[n], []
-                # a read-only property of the same class defined by a translated getter
+                # a property whose getter returns a field (translator configuration; the getter itself is translated too)
+                fld = m.cfg.get("properties", {}).get(e.attr)
+                if fld and ("self_" + fld) in env:
+                    return "self_" + fld, env["self_" + fld], []
                 raise Unsupported(f"self.{e.attr} is not a field")
             if e.attr == "value":
                 txt, ty, pre = self._expr(e.value, env)
@@ -439,7 +526,15 @@ class FnTr:
             return f"(if {self.as_bool(c, tc)} then {a} else {b})", ta, pc
         if isinstance(e, ast.Subscript):
             if isinstance(e.slice, ast.Slice):
-                raise Unsupported("slice")
+                sl = e.slice
+                xs, tx, px = self._expr(e.value, env)
+                if tx != "bytes" or sl.step is not None or (sl.lower is None) == (sl.upper is None):
+                    raise Unsupported("slice")
+                k, tk, pk = self._expr(sl.upper if sl.lower is None else sl.lower, env)
+                if tk != "int":
+                    raise Unsupported("slice bound")
+                fn = "Py.slicePrefix" if sl.lower is None else "Py.sliceSuffix"
+                return f"({fn} {xs} {k})", "bytes", px + pk
             xs, tx, px = self._expr(e.value, env)
             i, ti, pi = self._expr(e.slice, env)
             if tx != "bytes" or ti != "int":
@@ -462,12 +557,18 @@ class FnTr:
         f = e.func
         if e.keywords:
             raise Unsupported("keyword arguments")
-        args = [self._expr(a, env) for a in e.args] if not (isinstance(f, ast.Name) and f.id in ("int", "bytes", "bytearray")) else None
         if isinstance(f, ast.Name):
-            if f.id == "len" and len(args) == 1 and args[0][1] == "bytes":
-                return f"(Py.len {args[0][0]})", "int", args[0][2]
-            if f.id in ("min", "max") and len(args) == 2 and args[0][1] == args[1][1] == "int":
-                return f"({f.id} {args[0][0]} {args[1][0]})", "int", args[0][2] + args[1][2]
+            if f.id == "len" and len(e.args) == 1:
+                a, ta, pa = self._expr(e.args[0], env)
+                if ta == "bytes":
+                    return f"(Py.len {a})", "int", pa
+                if ta == "str":
+                    return f"(Py.lenS {a})", "int", pa
+                raise Unsupported("len of this type")
+            if f.id in ("min", "max") and len(e.args) == 2:
+                args = [self._expr(a, env) for a in e.args]
+                if args[0][1] == args[1][1] == "int":
+                    return f"({f.id} {args[0][0]} {args[1][0]})", "int", args[0][2] + args[1][2]
             if f.id == "int" and len(e.args) == 1 and isinstance(e.args[0], ast.BinOp) and isinstance(e.args[0].op, ast.Div):
                 a, ta, pa = self._expr(e.args[0].left, env)
                 b, tb, pb = self._expr(e.args[0].right, env)
@@ -475,7 +576,17 @@ class FnTr:
                     raise Unsupported("int(a / b) on non-integers")
                 t = self.fresh()
                 return t, "int", pa + pb + [lambda code, a=a, b=b, t=t: f"Py.truncDiv {a} {b} fun {t} =>\n{code}"]
-            if f.id in ("bytes", "bytearray") and len(e.args) == 1:
+            if f.id in ("bytes", "bytearray"):
+                if not e.args and f.id == "bytearray":
+                    return "([] : List Int)", "bytes", []
+                if len(e.args) == 3 and f.id == "bytearray" and all(isinstance(x, ast.Constant) for x in e.args[1:]) \
+                        and [x.value for x in e.args[1:]] == ["windows-1252", "replace"]:
+                    a, ta, pa = self._expr(e.args[0], env)
+                    if ta != "str":
+                        raise Unsupported("bytearray(x, codec, errors) of a non-string")
+                    return f"(Py.encodeAnsi {a})", "bytes", pa
+                if len(e.args) != 1:
+                    raise Unsupported(f"{f.id}(...)")
                 a0 = e.args[0]
                 if isinstance(a0, ast.List):
                     els = [self._expr(x, env) for x in a0.elts]
@@ -485,50 +596,93 @@ class FnTr:
                     lst = "[" + ", ".join(x for x, _, _ in els) + "]"
                     pre = [p for _, _, ps in els for p in ps]
                     return t, "bytes", pre + [lambda code, lst=lst, t=t: f"Py.mkBytes {lst} fun {t} =>\n{code}"]
+                if isinstance(a0, ast.BinOp) and isinstance(a0.op, ast.Mult) and isinstance(a0.left, ast.List) and len(a0.left.elts) == 1:
+                    # bytearray([c] * n)
+                    c, tc, pc = self._expr(a0.left.elts[0], env)
+                    n, tn, pn = self._expr(a0.right, env)
+                    if tc != "int" or tn != "int":
+                        raise Unsupported("list repetition")
+                    t = self.fresh()
+                    return t, "bytes", pc + pn + [lambda code, c=c, n=n, t=t: f"Py.mkBytes (List.replicate (Int.toNat {n}) {c}) fun {t} =>\n{code}"]
                 a, ta, pa = self._expr(a0, env)
                 if f.id == "bytearray" and ta == "int":
                     t = self.fresh()
                     return t, "bytes", pa + [lambda code, a=a, t=t: f"Py.zeros {a} fun {t} =>\n{code}"]
                 raise Unsupported(f"{f.id}(...)")
-            # a translated function of this module, or a constructor of a translated class
-            if f.id in m.classes:
-                return self.call_translated(f"{f.id}.__init__", args, ctor=f.id)
-            if f.id in m.cfg["functions"]:
-                return self.call_translated(f.id, args)
-            raise Unsupported(f"call of {f.id}")
         if isinstance(f, ast.Attribute):
-            if isinstance(f.value, ast.Name) and f.value.id == "random" and f.attr == "randrange" and len(args) == 2:
+            if isinstance(f.value, ast.Name) and f.value.id == "random" and f.attr == "randrange" and len(e.args) == 2:
+                args = [self._expr(a, env) for a in e.args]
                 r = f"r{len(self.rparams) + 1}"
                 self.rparams.append(r)
                 t = self.fresh()
                 pre = args[0][2] + args[1][2]
                 a, b = args[0][0], args[1][0]
                 return t, "int", pre + [lambda code, a=a, b=b, r=r, t=t: f"Py.randrange {a} {b} {r} fun {t} =>\n{code}"]
-            if isinstance(f.value, ast.Name) and f.value.id in m.classes:
-                return self.call_translated(f"{f.value.id}.{f.attr}", args)
-        raise Unsupported("call")
+            if f.attr == "copy" and not e.args:
+                a, ta, pa = self._expr(f.value, env)
+                if ta == "bytes":
+                    return a, "bytes", pa
+        r = resolve_callee(m, self.cls, e)
+        if r is None:
+            raise Unsupported("call")
+        val, ty, wrapper, env2 = self.emit_call(r, e, env, want_value=True)
+        if env2 is not env and env2 != env:
+            raise Unsupported("a call used as a value that also mutates its arguments")
+        return val, ty, [wrapper]
 
-    def call_translated(self, name, args, ctor=None):
-        m = self.mod
-        wanted = set(m.cfg["functions"]) | {f"{c}.{x}" for c, ms in m.cfg["classes"].items() for x in ms}
-        if name not in m.funcs:
-            if name in wanted and m.report.get(name) is None:
-                raise NeedsLater()
-            raise Unsupported(f"call of {name}, which is not translated")
-        sig = m.funcs[name]
+    def emit_call(self, r, e: ast.Call, env, want_value: bool):
+        """call of a translated function / method: -> (value text, value type, wrapper code -> code, environment after)"""
+        lname, sig = r
+        if sig is None:
+            raise NeedsLater()
         if sig["nrandom"]:
             raise Unsupported("call of a function that draws random numbers")
-        if sig["is_method"] and not sig["is_init"]:
-            raise Unsupported("method call")
-        if [t for _, t, _ in args] != sig["params"]:
-            raise Unsupported(f"argument types of {name}")
-        t = self.fresh()
+        args = [self._expr(a, env) for a in e.args]
+        formal = sig["params"][sig["nfields"]:]
+        if len(args) > len(formal):
+            raise Unsupported(f"too many arguments for {lname}")
+        if len(args) < len(formal):
+            raise Unsupported(f"default arguments of {lname} are not supplied at this call")
+        for (_, t, _), ft in zip(args, formal):
+            if t != ft and not ({t, ft} <= {"int", "valueobj"}):
+                raise Unsupported(f"argument types of {lname}")
+        fields = []
+        if sig["nfields"]:
+            if sig["cls"] != self.cls:
+                raise Unsupported("method call on another object")
+            fields = ["self_" + f for f in self.mod.classes[self.cls]["fields"]]
+            if any(f not in env for f in fields):
+                raise Unsupported("method call before every field is assigned")
         pre = [p for _, _, ps in args for p in ps]
-        argtxt = " ".join(a for a, _, _ in args)
-        rty = sig["ret"]
-        if ctor:
-            rty = ("obj", ctor, sig["ret"])
-        return t, rty, pre + [lambda code, name=name, argtxt=argtxt, t=t: f"Py.bind ({name} {argtxt}) fun {t} =>\n{code}"]
+        argtxt = " ".join(fields + [a for a, _, _ in args])
+        # what the call rebinds
+        targets = []
+        for o in sig["outs"]:
+            if o in sig["pnames"]:
+                v = _var_of(e.args[sig["pnames"].index(o)])
+                if v is None:
+                    raise Unsupported("a mutated argument that is not a variable")
+                targets.append(v)
+            else:
+                targets.append(o)
+        is_ctor = sig["is_init"]
+        rt = sig["ret_type"]
+        t = self.fresh()
+        if is_ctor:
+            pat, val, ty = t, t, ("obj", sig["cls"], sig["ret"])
+            targets = []
+        elif rt == "none":
+            pat, val, ty = (tup(targets) if targets else "_"), None, "none"
+        else:
+            pat, val, ty = (f"({tup(targets)}, {t})" if targets else t), t, rt
+        env2 = env
+        if targets:
+            env2 = dict(env)
+        code_w = lambda code, lname=lname, argtxt=argtxt, pat=pat: f"Py.bind ({lname} {argtxt}) fun {pat} =>\n{code}"
+        wrapper = lambda code: self.wrap(pre, code_w(code))
+        if want_value and val is None:
+            raise Unsupported("the value of a call that returns None")
+        return val, ty, wrapper, env2
 
     # -- statements ------------------------------------------------------------------------------------------------
     @staticmethod
@@ -584,34 +738,34 @@ class FnTr:
                 base = self.mod.classes[self.cls]["base"] if self.cls else None
                 if base is None:
                     raise Unsupported("super() without a translated base class")
-                args = [self._expr(a, env) for a in v.args]
-                t, ty, pre = self.call_translated(f"{base}.__init__", args)
+                bname = f"{base}.__init__"
+                if bname not in self.mod.funcs:
+                    raise NeedsLater()
+                fake = ast.Call(func=ast.Name(id=base), args=v.args, keywords=[])
+                val, ty, wrapper, _ = self.emit_call((bname, self.mod.funcs[bname]), fake, env, want_value=True)
                 bf = ["self_" + f for f in self.mod.classes[base]["fields"]]
                 env2 = dict(env)
-                bt = self.mod.funcs[f"{base}.__init__"]["ret"][1]
+                bt = self.mod.funcs[bname]["ret"][1]
                 for n, ft in zip(bf, bt):
                     env2[n] = ft
-                return self.wrap(pre, f"let {tup(bf)} := {t}\n{rest(env2)}")
-            # a call whose value is discarded: only translated in-place functions (their results rebind the arguments)
-            if isinstance(v, ast.Call) and isinstance(v.func, ast.Name) and v.func.id in self.mod.cfg["functions"]:
-                name = v.func.id
-                if name not in self.mod.funcs:
-                    raise NeedsLater()
-                sig = self.mod.funcs[name]
-                if sig["nrandom"] or not all(isinstance(a, ast.Name) for a in v.args):
-                    raise Unsupported("call statement")
-                args = [self._expr(a, env) for a in v.args]
-                if [t for _, t, _ in args] != sig["params"]:
-                    raise Unsupported("argument types")
-                outs = sig["outs"]
-                pnames = [a.arg for a in next(x for x in self.mod.tree.body if isinstance(x, ast.FunctionDef) and x.name == name).args.args]
-                actual = {p: a.id for p, a in zip(pnames, v.args)}
-                argtxt = " ".join(a for a, _, _ in args)
-                targets = [actual[o] for o in outs]
-                pat = tup(targets) if sig["ret"][0] == "tuple" and not (len(sig["ret"][1]) == 2 and isinstance(sig["ret"][1][0], tuple)) else None
-                if pat is None:
-                    raise Unsupported("call statement of a function that returns a value")
-                return f"Py.bind ({name} {argtxt}) fun {pat} =>\n{rest(env)}"
+                return wrapper(f"let {tup(bf)} := {val}\n{rest(env2)}")
+            if isinstance(v, ast.Call) and isinstance(v.func, ast.Attribute) and v.func.attr in ("append", "extend") and len(v.args) == 1 \
+                    and _var_of(v.func.value) and env.get(_var_of(v.func.value)) == "bytes":
+                xs = _var_of(v.func.value)
+                a, ta, pa = self._expr(v.args[0], env)
+                if v.func.attr == "append":
+                    if ta != "int":
+                        raise Unsupported("append of a non-integer")
+                    return self.wrap(pa, f"Py.append {xs} {a} fun {xs} =>\n{rest(env)}")
+                if ta != "bytes":
+                    raise Unsupported("extend by a non-bytes value")
+                return self.wrap(pa, f"let {xs} : List Int := {xs} ++ {a}\n{rest(env)}")
+            # a call whose value is discarded: translated functions and methods (their results rebind what they mutate)
+            if isinstance(v, ast.Call):
+                r = resolve_callee(self.mod, self.cls, v)
+                if r is not None:
+                    _, _, wrapper, env2 = self.emit_call(r, v, env, want_value=False)
+                    return wrapper(rest(env2))
             raise Unsupported("expression statement")
         if isinstance(st, ast.Pass):
             return rest(env)
@@ -639,11 +793,17 @@ class FnTr:
                 xs = tg.value.id
                 if isinstance(tg.slice, ast.Slice):
                     s = tg.slice
-                    if s.lower is None and s.upper is None and s.step is None:
-                        txt, ty, pre = self._expr(st.value, env)
-                        if ty != "bytes":
-                            raise Unsupported("slice assignment of a non-bytes value")
+                    txt, ty, pre = self._expr(st.value, env)
+                    if ty != "bytes" or s.step is not None:
+                        raise Unsupported("slice assignment of a non-bytes value")
+                    if s.lower is None and s.upper is None:
                         return self.wrap(pre, f"let {xs} : List Int := {txt}\n{rest(env)}")
+                    if (s.lower is None) != (s.upper is None):
+                        k, tk, pk = self._expr(s.upper if s.lower is None else s.lower, env)
+                        if tk != "int":
+                            raise Unsupported("slice bound")
+                        fn = "Py.setPrefix" if s.lower is None else "Py.setSuffix"
+                        return self.wrap(pre + pk, f"let {xs} : List Int := {fn} {xs} {k} {txt}\n{rest(env)}")
                     raise Unsupported("slice assignment")
                 # Python evaluates the right-hand side first, then the target's index
                 v, tv, pv = self._expr(st.value, env)
@@ -840,7 +1000,7 @@ def translate_all(repo: str, out_dir: str = GEN_DIR) -> dict:
             m = Module(cfg, repo, world)
             world[tag] = m
             m.translate()
-            imports = sorted({t for t, _ in m.imported.values() if t in world and t != tag})
+            imports = sorted({t for t, _ in list(m.imported.values()) + list(m.imported_funcs.values()) if t in world and t != tag})
             head = ["import EoVerif.Model.PyOps"] + [f"import EoVerif.Generated.Src{t}" for t in imports]
             text = "\n".join(head) + f"\n/-! GENERATED by harness/py2lean.py from `{cfg['file']}` — do not edit; regenerated on every run. -/\n" \
                    "set_option linter.unusedVariables false\n" \
